@@ -4,6 +4,8 @@ package transport
 
 import (
 	"fmt"
+	"runtime"
+	"strings"
 	"time"
 	"context"
 	"errors"
@@ -33,14 +35,76 @@ import (
 //	[5, kind]       kind 0: server GOAWAY(last=MaxInt32, NO_ERROR); 1: client t.Close(); terminal:
 //	                later ops are ignored
 //
-// obs [streamQuota, waitingStreams, len(activeStreams), #blocked NewStream calls,
+//	[7]             like [1] but the caller is held between registering as a waiter and parking
+//	[8, k]          release the k-th held caller (start order, k mod n); [5,..] with held callers only releases them
+//
+// obs [streamQuota, waitingStreams, len(activeStreams), #NewStream calls not returned, #of them held,
 //
 //	#calls that failed with a context error in this step, #calls that failed with
 //	drain/closing in this step, n, the n stream ids of HEADERS frames the server received in
 //	this step in arrival order, the n ids of the streams NewStream returned in this step ascending]
 var vStreamQuotaT *testing.T
 
+// vStreamQuotaGate is a context whose Done method, the first time it is evaluated directly by
+// (*http2Client).NewStream (that is, while NewStream builds the select it is about to park
+// in, after it registered as a waiter), blocks until the driver releases it: the call is
+// then "registered, not yet parked".
+type vStreamQuotaGate struct {
+	context.Context
+	once     sync.Once
+	inWindow chan struct{}
+	release  chan struct{}
+}
+
+func (c *vStreamQuotaGate) Done() <-chan struct{} {
+	if vStreamQuotaFromNewStream() {
+		c.once.Do(func() {
+			close(c.inWindow)
+			<-c.release
+		})
+	}
+	return c.Context.Done()
+}
+
+func vStreamQuotaFromNewStream() bool {
+	pcs := make([]uintptr, 16)
+	n := runtime.Callers(2, pcs)
+	frames := runtime.CallersFrames(pcs[:n])
+	for {
+		f, more := frames.Next()
+		switch {
+		case strings.HasPrefix(f.Function, "context."), strings.Contains(f.Function, "vStreamQuotaGate"):
+		default:
+			return strings.HasSuffix(f.Function, "transport.(*http2Client).NewStream")
+		}
+		if !more {
+			return false
+		}
+	}
+}
+
+func (c *vStreamQuotaCall) held() bool {
+	if c.gate == nil || c.released {
+		return false
+	}
+	select {
+	case <-c.gate.inWindow:
+		return true
+	default:
+		return false
+	}
+}
+
+func (c *vStreamQuotaCall) letGo() {
+	if c.gate != nil && !c.released {
+		c.released = true
+		close(c.gate.release)
+	}
+}
+
 type vStreamQuotaCall struct {
+	gate     *vStreamQuotaGate
+	released bool
 	cancel context.CancelFunc
 	done   bool
 	s      *ClientStream
@@ -110,15 +174,20 @@ func vStreamQuotaRun(cfg []int64, ops [][]int64) (obs [][]int64, nt bool, tags [
 		panic("vStreamQuota: NewHTTP2Client: " + err.Error())
 	}
 	t := ct.(*http2Client)
+	var calls []*vStreamQuotaCall
+	var cmu sync.Mutex
 	defer func() {
+		cmu.Lock()
+		for _, c := range calls {
+			c.letGo()
+		}
+		cmu.Unlock()
 		t.Close(errors.New("verif case done"))
 		srv.Close()
 	}()
 	<-sv.prefOK
 	synctest.Wait()
 
-	var calls []*vStreamQuotaCall
-	var cmu sync.Mutex
 	open := map[uint32]*ClientStream{}
 	srvSeen := 0
 	tagset := map[string]bool{}
@@ -130,12 +199,17 @@ func vStreamQuotaRun(cfg []int64, ops [][]int64) (obs [][]int64, nt bool, tags [
 			continue
 		}
 		switch {
-		case op[0] == 1 && len(op) == 1:
+		case (op[0] == 1 || op[0] == 7) && len(op) == 1:
 			cctx, cancel := context.WithCancel(ctx)
 			c := &vStreamQuotaCall{cancel: cancel}
+			var callCtx context.Context = cctx
+			if op[0] == 7 {
+				c.gate = &vStreamQuotaGate{Context: cctx, inWindow: make(chan struct{}), release: make(chan struct{})}
+				callCtx = c.gate
+			}
 			calls = append(calls, c)
 			go func() {
-				s, err := t.NewStream(cctx, &CallHdr{Host: "h", Method: "/s/m"}, nil)
+				s, err := t.NewStream(callCtx, &CallHdr{Host: "h", Method: "/s/m"}, nil)
 				cmu.Lock()
 				c.s, c.err, c.done = s, err, true
 				cmu.Unlock()
@@ -170,7 +244,7 @@ func vStreamQuotaRun(cfg []int64, ops [][]int64) (obs [][]int64, nt bool, tags [
 			var blocked []*vStreamQuotaCall
 			cmu.Lock()
 			for _, c := range calls {
-				if !c.done {
+				if !c.done && !c.held() {
 					blocked = append(blocked, c)
 				}
 			}
@@ -183,6 +257,23 @@ func vStreamQuotaRun(cfg []int64, ops [][]int64) (obs [][]int64, nt bool, tags [
 				k += len(blocked)
 			}
 			blocked[k].cancel()
+		case op[0] == 8 && len(op) == 2:
+			var heldCalls []*vStreamQuotaCall
+			cmu.Lock()
+			for _, c := range calls {
+				if !c.done && c.held() {
+					heldCalls = append(heldCalls, c)
+				}
+			}
+			cmu.Unlock()
+			if len(heldCalls) == 0 {
+				break
+			}
+			k := int(op[1] % int64(len(heldCalls)))
+			if k < 0 {
+				k += len(heldCalls)
+			}
+			heldCalls[k].letGo()
 		case op[0] == 6 && len(op) == 2:
 			// a SETTINGS frame that does not carry MAX_CONCURRENT_STREAMS
 			sv.wmu.Lock()
@@ -193,6 +284,18 @@ func vStreamQuotaRun(cfg []int64, ops [][]int64) (obs [][]int64, nt bool, tags [
 			}
 			sv.wmu.Unlock()
 		case op[0] == 5 && len(op) == 2:
+			anyHeld := false
+			cmu.Lock()
+			for _, c := range calls {
+				if !c.done && c.held() {
+					anyHeld = true
+					c.letGo()
+				}
+			}
+			cmu.Unlock()
+			if anyHeld {
+				break // while calls are held this op only releases them
+			}
 			dead = true
 			if op[1] == 0 {
 				sv.wmu.Lock()
@@ -206,13 +309,16 @@ func vStreamQuotaRun(cfg []int64, ops [][]int64) (obs [][]int64, nt bool, tags [
 		}
 		synctest.Wait()
 
-		nBlocked, nCtx, nTerm := 0, 0, 0
+		nBlocked, nHeld, nCtx, nTerm := 0, 0, 0, 0
 		var newIDs []int64
 		cmu.Lock()
 		for _, c := range calls {
 			switch {
 			case !c.done:
 				nBlocked++
+				if c.held() {
+					nHeld++
+				}
 			case !c.seen:
 				c.seen = true
 				if c.err != nil {
@@ -242,11 +348,14 @@ func vStreamQuotaRun(cfg []int64, ops [][]int64) (obs [][]int64, nt bool, tags [
 		t.mu.Lock()
 		nact = int64(len(t.activeStreams))
 		t.mu.Unlock()
-		o := []int64{quota, waiting, nact, int64(nBlocked), int64(nCtx), int64(nTerm), int64(len(srvNew))}
+		o := []int64{quota, waiting, nact, int64(nBlocked), int64(nHeld), int64(nCtx), int64(nTerm), int64(len(srvNew))}
 		o = append(o, srvNew...)
 		o = append(o, newIDs...)
 		obs = append(obs, o)
 
+		if nHeld > 0 {
+			tagset["held"] = true
+		}
 		if nBlocked > 0 {
 			everBlocked = true
 			tagset["blocked"] = true
@@ -299,6 +408,11 @@ func vStreamQuotaExec(cfg []int64, ops [][]int64) (obs [][]int64, nt bool, tags 
 }
 
 func vStreamQuotaGen(r *vRand, tier string, idx int) ([]int64, [][]int64) {
+	if idx == 0 {
+		// two callers registered as waiters but not yet parked while two streams end: one
+		// token survives; the caller that takes it must hand it on for the last free slot
+		return []int64{2}, [][]int64{{1}, {1}, {7}, {7}, {3, 0, 1}, {3, 0, 1}, {8, 0}, {8, 0}, {1}, {3, 0, 0}}
+	}
 	m0 := r.PickI64(0, 1, 2, 3, 5)
 	if r.Chance(10) {
 		m0 = r.PickI64(-1, 100, math.MaxUint32)
@@ -318,15 +432,21 @@ func vStreamQuotaGen(r *vRand, tier string, idx int) ([]int64, [][]int64) {
 		x := r.Intn(100)
 		switch {
 		case x < pNew:
-			ops = append(ops, []int64{1})
+			if r.Chance(25) {
+				ops = append(ops, []int64{7})
+			} else {
+				ops = append(ops, []int64{1})
+			}
 		case x < pNew+10:
 			ops = append(ops, []int64{2, limits[r.Intn(len(limits))]})
-		case x < 93:
+		case x < 89:
 			ops = append(ops, []int64{3, int64(r.Intn(8)), int64(r.Intn(2))})
-		case x < 96:
+		case x < 92:
 			ops = append(ops, []int64{4, int64(r.Intn(4))})
-		case x < 99:
+		case x < 94:
 			ops = append(ops, []int64{6, int64(r.Intn(1000))})
+		case x < 99:
+			ops = append(ops, []int64{8, int64(r.Intn(3))})
 		default:
 			if i > n/2 {
 				ops = append(ops, []int64{5, int64(r.Intn(2))})
